@@ -1034,6 +1034,10 @@ func unmarshalMap(
 			ctx,
 			key,
 			func(token *Token) (Sink, error) {
+				if !key.Elem().Comparable() {
+					// e.g. a slice or map decoded into an interface-typed key
+					return nil, we.With(WithPath(ctx), BadMapKey)(UnmarshalError)
+				}
 				value := reflect.New(elemType)
 
 				return ctx.Unmarshal(
